@@ -39,7 +39,8 @@ def Statement_rule_tables : Prop :=
      ("Decimal", "decimal"), ("datetime", "dateTime"), ("date", "date"), ("time", "time"),
      ("Duration", "duration"), ("timedelta", "dayTimeDuration")] ∧
   (∀ d ∈ Dt.all, isNumeric (some d) = (d.conv == .int || d == .decimal)) ∧
-  ("bytes", "hexBinary") ∈ Tables.specificRules ∧ ("timedelta", "yearMonthDuration") ∈ Tables.specificRules
+  ("bytes", "hexBinary") ∈ Tables.specificRules ∧ ("timedelta", "yearMonthDuration") ∈ Tables.specificRules ∧
+  ("Duration", "yearMonthDuration") ∈ Tables.specificRules
 
 theorem rule_tables : Statement_rule_tables := by
   unfold Statement_rule_tables; decide
